@@ -223,6 +223,15 @@ def simulate : Nat → Nat → State Lock → Option Nat
       let i := en.getD ((x' / 65536) % en.length) 0
       simulate fuel x' (fire s i)
 
+/-- exhaustive search (no state merging; for the tiny programs of the harness self-test): is a
+deadlocked state reachable under strict writer preference? -/
+def deadlockReachable : Nat → State Lock → Bool
+  | 0, _ => false
+  | fuel + 1, s =>
+    let en := (List.range s.length).filter (enabledB s)
+    if en.isEmpty then s.any (fun t => !t.prog.isEmpty)
+    else en.any (fun i => deadlockReachable fuel (fire s i))
+
 /-- lock class of an op, as the harness states it on `conc opclass` lines -/
 def opClass (p : List LockEv) : String :=
   if isLockFree p then "lockfree"
